@@ -641,7 +641,7 @@ func main() {
 				"distinct_file_sizes":            m.Distinct["file_sizes"],
 				"max_file_bytes":                 m.Maxes["max_file_bytes"],
 				"rule": "3 writers (home.configuration.write, dhcpd onNotify->dbStore->writeDB, filtering tryRefreshFilters->updateIntl->finalizeUpdate) x wanted sizes " +
-					"{0,1,4095,4096,4097,1 MiB}(+32 MiB thorough; nearest reachable size where the writer has a minimum) x destination {present, absent} before x temporary-file placement " +
+					"{0,1,4095,4096,4097,1 MiB}(+32 MiB thorough; the writer's minimum where smaller sizes cannot exist: configuration 3519 B, lease database 141 B = one lease, filter list 0 B only as the middle version and 2 B instead of 1 B) x destination {present, absent} before x temporary-file placement " +
 					"{next to destination, other directory}; per scenario two successive saves; (a) one real SIGKILL on entry to every file-system call touching the working directory between " +
 					"the markers (every call of the kill set), destination then read back; (b) every power-loss state of the recorded log: prefix x namespace operations lost (any suffix not " +
 					"followed by a directory sync) x data operations of the destination's file on disk (any prefix since its last fsync) x next write torn at {1,4095,4096,4097,n/2,n-1} bytes. " +
